@@ -84,10 +84,12 @@ struct Windows {
     rx: Vec<(u32, u8, u32, Option<u32>)>, // single-shot windows in order: freq, sf, bw, buffer ms
     cont: Vec<(u32, u8, u32, usize)>,     // continuous (Class C) setups + number of rx_single calls before it
     timers: Vec<u64>,
+    /// async: the timer was restarted between the (first) TX and the first timer wait
+    reset_after_tx: bool,
 }
 
 fn extract(evs: &[Ev], nb: bool) -> Option<Windows> {
-    let mut w = Windows { tx: (0, 0, 0), rx: vec![], cont: vec![], timers: vec![] };
+    let mut w = Windows { tx: (0, 0, 0), rx: vec![], cont: vec![], timers: vec![], reset_after_tx: false };
     let mut seen_tx = false;
     let mut singles = 0usize;
     for e in evs {
@@ -107,6 +109,11 @@ fn extract(evs: &[Ev], nb: bool) -> Option<Windows> {
             }
             Ev::RxSingle => singles += 1,
             Ev::TimerAt(t) => w.timers.push(*t),
+            Ev::TimerReset => {
+                if seen_tx && w.timers.is_empty() {
+                    w.reset_after_tx = true;
+                }
+            }
             _ => {}
         }
     }
@@ -239,6 +246,15 @@ fn check_windows(reg: Reg, front: Front, join: bool, snap: &lorawan_device::veri
             check_rx2(*f, *sf, *bw, "classc", col);
         }
     }
+    // a Class C device listens in both gaps (before RX1, between RX1 and RX2) when both windows open
+    // (a joined one: before the first accept there are no RX2 parameters of a session to listen on)
+    if front == Front::AsyncC && !join && w.rx.len() >= 2 {
+        for gap in 0..2usize {
+            if !w.cont.iter().any(|c| c.3 == gap) {
+                col.violation(&format!("C10|classc|no-listening-in-gap|{}", if gap == 0 { "before-rx1" } else { "between-rx1-and-rx2" }), "a Class C device did not listen between the windows of an uplink", ctx("classc-gap"));
+            }
+        }
+    }
     // ---- timing -----------------------------------------------------------------------------------
     let d1: u64 = if join { 5000 } else { snap.rx1_delay as u64 };
     let exp_t1 = (d1 + tx_done_ms as u64).saturating_sub(lead as u64);
@@ -260,6 +276,10 @@ fn check_windows(reg: Reg, front: Front, join: bool, snap: &lorawan_device::veri
         }
     } else {
         col.event("async_timing_checked");
+        // the delays count from the end of the transmission: the timer is restarted there
+        if !w.timers.is_empty() && !w.reset_after_tx {
+            col.violation(&format!("C10|timing|async|timer-not-restarted-after-tx|{}", if join { "join" } else { "data" }), "the window timer is not restarted when the transmission ends: the receive delays count from an earlier instant", ctx("timer-reset"));
+        }
         if let Some(t1) = w.timers.first() {
             if *t1 != exp_t1 {
                 col.violation(&format!("C10|rx1-timing|async|{}|delay={}", if join { "join" } else { "data" }, d1 / 1000), "RX1 timer differs from delay + end-of-TX - lead", json!({"ctx": ctx("t1"), "expected": exp_t1}));
